@@ -174,7 +174,7 @@ func (vc *VC) specEnv(st, old *State) *SpecEnv {
 			vars[n] = v
 		}
 	}
-	return &SpecEnv{vc: vc, st: st, old: old, vars: vars, pkg: vc.pkg}
+	return &SpecEnv{vc: vc, st: st, old: old, vars: vars, pkg: vc.pkg, oldVars: vc.paramTerm}
 }
 
 func (vc *VC) checkInvs(st *State, ls *LoopSpec, kind string, entry *State, n int, where string) {
